@@ -98,6 +98,13 @@ def history(job):
                     f.value = op[2]
                 elif op[0] == 'del':
                     delattr(s, op[1])
+                elif op[0] == 'setvalue':
+                    # the write spelled through the child reached by traversal: `segment.<field>.value = text` (and, with a handle taken before the
+                    # field existed, a second write through the stale handle): STRICT counts the child it materialises like any other (seed C05-j)
+                    h_ = getattr(s, op[1])
+                    if len(op) > 3:
+                        setattr(s, op[1], op[3])
+                    h_.value = op[2]
                 elif op[0] == 'addunnamed':
                     # an unknown child: a Field without a name (the only nameless Field a STRICT constructor allows is of datatype `varies`)
                     from hl7apy.core import Field
@@ -268,19 +275,24 @@ def run(tier, seed):
                     continue
                 mj.append((t, True))
         # API histories on segments
-        for _ in range(25 if tier == 'quick' else 400):
+        for _ in range(60 if tier == 'quick' else 400):
             seg = rng.choice(names)
             rows = g.lib.SEGMENTS[seg][1] if gen.is_seq(g.lib.SEGMENTS[seg]) and len(g.lib.SEGMENTS[seg]) > 1 else []
             if not rows or not all(gen.is_seq(r) and len(r) == 4 and isinstance(r[0], str) for r in rows):
                 continue
             ops = []
+            withdrawn = [k_ for k_, r_ in enumerate(rows) if gen.is_seq(r_[2]) and len(r_[2]) == 2 and r_[2][1] == 0]
             for _ in range(rng.randint(1, 6)):
                 i = rng.randrange(len(rows))
+                if withdrawn and rng.random() < .3:
+                    i = rng.choice(withdrawn)          # a withdrawn field (maximum 0): nothing may create one under STRICT
                 row = rows[i]
                 name = row[0].lower()
                 val = g.conf_ref(row[1], 0) if rng.random() < .7 else rng.choice(['x' * 300, 'a^b^c^d^e^f^g^h^i^j^k^l^m^n^o^p^q^r^s^t^u^v^w^x^y', 'abc', '1~2', ''])
                 k = rng.random()
-                if k < .6:
+                if k < .2:
+                    ops.append(('setvalue', name, val) if rng.random() < .6 else ('setvalue', name, val, val))
+                elif k < .6:
                     ops.append(('set', name, val))
                 elif k < .85:
                     ops.append(('add', row[0], val))
@@ -289,6 +301,23 @@ def run(tier, seed):
             if rng.random() < .25:
                 ops.insert(rng.randrange(len(ops) + 1), ('addunnamed', rng.choice(['abc', 'abc^def']), rng.choice(['add', 'append', 'parent'])))
             hj.append((v, seg, ops))
+    # every withdrawn field (maximum 0) of every segment off the guard list, written through traversal; and a stale handle on a max-1 field
+    for v in VERSIONS:
+        lib_ = hl7apy.load_library(v)
+        pairs, ones = [], []
+        for S_, ref_ in sorted(lib_.SEGMENTS.items()):
+            if S_ in ex.get(v, []) or S_ in ('MSH', 'ANYHL7SEGMENT') or not (gen.is_seq(ref_) and len(ref_) > 1 and gen.is_seq(ref_[1])):
+                continue
+            for r_ in ref_[1]:
+                if gen.is_seq(r_) and len(r_) == 4 and gen.is_seq(r_[2]) and len(r_[2]) == 2 and gen.well_formed_ref(r_[1]) and len(r_[1]) == 6:
+                    if r_[2][1] == 0:
+                        pairs.append((S_, r_[0]))
+                    elif r_[2][1] == 1 and r_[1][0] == 'leaf' and r_[1][2] in ('ST', 'ID', 'IS'):
+                        ones.append((S_, r_[0]))
+        for S_, F_ in rng.sample(pairs, min(len(pairs), 8 if tier == 'quick' else len(pairs))):
+            hj.append((v, S_, [('setvalue', F_.lower(), 'X')]))
+        for S_, F_ in rng.sample(ones, min(len(ones), 4 if tier == 'quick' else 60)):
+            hj.append((v, S_, [('setvalue', F_.lower(), 'B', 'A')]))
     rs = vlib.pmap(both_seg, sj, chunk=32)
     chk.again('parse_segment(text, version, level) for level in (STRICT, TOLERANT); to_er7; validate', both_seg, sj, rs, 300)
     rm = vlib.pmap(both_msg, mj, chunk=8)
